@@ -28,10 +28,14 @@ type c09Case struct {
 }
 
 var c09States = []string{"idle", "reader-blocked", "half-read", "closeread", "writer-blocked", "writer-open", "ping-pending"}
-var c09Advs = []string{"silent-reading", "silent-not-reading", "stall", "flood-frames", "flood-fragments", "flood-payload", "half-close", "echo-delay", "violation", "hangup"}
+var c09Advs = []string{"silent-reading", "silent-not-reading", "stall", "flood-frames", "flood-fragments", "flood-payload", "half-close", "echo-delay", "violation", "hangup", "zero-window"}
 
 // states that only make sense once the adversary has acted: a write that then fails in the transport
 var c09LateStates = []string{"write-fails", "stream-write-fails"}
+
+// c09PingStates: a Ping whose frame is stuck in the transport (the peer took one byte of it) while the peer
+// already sends the Pong for it - twice (Ping payloads are a counter: the first one is "1").
+var c09PingStates = []string{"ping-write-blocked"}
 var c09BadCloseOps = []string{"Close-badcode", "Close-longreason"}
 var c09StallFrames = []string{"data7", "data16", "data64", "ping", "close", "cont"}
 
@@ -147,6 +151,19 @@ func runC09(t fataler, c c09Case) (string, c09Result) {
 		if !within(d, 10*time.Second) {
 			return "setup: Writer did not return", res
 		}
+	case "ping-write-blocked":
+		lc.End.SetInBudget(1)
+		blockedCalls = append(blockedCalls, blocked{"Reader", e.Call(func() {
+			for {
+				if _, _, err := conn.Read(ctx); err != nil {
+					return
+				}
+			}
+		})})
+		blockedCalls = append(blockedCalls, blocked{"Ping", e.Call(func() { conn.Ping(ctx) })})
+		synctest.Wait()
+		p.send(ref.Frame{Fin: true, Opcode: ref.OpPong, Payload: []byte("1")})
+		p.send(ref.Frame{Fin: true, Opcode: ref.OpPong, Payload: []byte("1")})
 	case "ping-pending":
 		// a reader is needed for Ping; the peer never answers
 		blockedCalls = append(blockedCalls, blocked{"Reader", e.Call(func() {
@@ -219,6 +236,8 @@ func runC09(t fataler, c c09Case) (string, c09Result) {
 			})
 		case "half-close":
 			lc.End.CloseWrite(nil)
+		case "zero-window":
+			lc.End.SetInBudget(0) // the peer is there but takes nothing: every write of the library blocks
 		case "hangup":
 			lc.End.Close() // the peer is gone: reads end, writes fail in the transport
 		case "violation":
@@ -228,7 +247,7 @@ func runC09(t fataler, c c09Case) (string, c09Result) {
 	switch c.Adv {
 	case "silent-reading", "silent-not-reading", "echo-delay":
 		res.Withheld = true
-	case "flood-frames", "flood-fragments", "flood-payload", "half-close", "violation", "hangup":
+	case "flood-frames", "flood-fragments", "flood-payload", "half-close", "violation", "hangup", "zero-window":
 		res.Withheld = true
 	}
 	if c.When == "before" {
@@ -351,7 +370,7 @@ func c09Key(c c09Case) string {
 
 func TestC09(t *testing.T) {
 	rec := evid.For("C09")
-	rec.Rule = "enumerated matrix in virtual time: local state {idle, reader blocked, message half read, CloseRead active, writer blocked on a zero window, Writer open mid-message, Ping pending} [+ a Write / a streamed message started after the adversary acted] x scripted adversary {gone (transport closed: writes fail), silent but reading, never reading, stall after k bytes of a frame for EVERY k (7/16/64-bit data frames, Ping, Close, non-final fragment), endless data frames, one endless payload, half-close, echo after 0/1/4.9/5.1/20 s, protocol violation} acting before or after the call x role x {Close, CloseNow, CloseRead + incoming data message, Close with an unsendable code, Close with a 124-byte reason}; then rapid-drawn combinations. Bounds asserted on the fake clock: Close <= 11 s, CloseNow <= 1 s, blocked calls and the CloseRead context <= 1 s after the library closed the transport. Non-trivial: the adversary withheld something the library was waiting for. distinct = (role, state, adversary, frame kind, k class, delay, op, timing)."
+	rec.Rule = "enumerated matrix in virtual time: local state {idle, reader blocked, message half read, CloseRead active, writer blocked on a zero window, Writer open mid-message, Ping pending} [+ a Write / a streamed message started after the adversary acted] [+ a Ping whose frame is stuck in the transport while the peer already sends its Pong twice] x scripted adversary {gone (transport closed: writes fail), present but taking nothing (zero window), silent but reading, never reading, stall after k bytes of a frame for EVERY k (7/16/64-bit data frames, Ping, Close, non-final fragment), endless data frames, one endless payload, half-close, echo after 0/1/4.9/5.1/20 s, protocol violation} acting before or after the call x role x {Close, CloseNow, CloseRead + incoming data message, Close with an unsendable code, Close with a 124-byte reason}; then rapid-drawn combinations. Bounds asserted on the fake clock: Close <= 11 s, CloseNow <= 1 s, blocked calls and the CloseRead context <= 1 s after the library closed the transport. Non-trivial: the adversary withheld something the library was waiting for. distinct = (role, state, adversary, frame kind, k class, delay, op, timing)."
 	var rc c09Case
 	if replayCase(t, &rc) {
 		var msg string
@@ -434,6 +453,15 @@ func TestC09(t *testing.T) {
 				}
 			}
 		}
+		for _, st := range c09PingStates {
+			for _, op := range []string{"Close", "CloseNow"} {
+				for _, adv := range []string{"silent-reading", "zero-window", "hangup"} {
+					for _, when := range []string{"before", "after"} {
+						one(c09Case{Client: client, State: st, Adv: adv, Op: op, When: when})
+					}
+				}
+			}
+		}
 		for _, st := range c09States {
 			for _, op := range c09BadCloseOps {
 				for _, when := range []string{"before", "after"} {
@@ -455,7 +483,7 @@ func TestC09Mixed(t *testing.T) {
 		c := c09Case{
 			Client:  rapid.Bool().Draw(rt, "client"),
 			Deflate: rapid.Bool().Draw(rt, "deflate"),
-			State:   rapid.SampledFrom(append(append([]string(nil), c09States...), c09LateStates...)).Draw(rt, "state"),
+			State:   rapid.SampledFrom(append(append(append([]string(nil), c09States...), c09LateStates...), c09PingStates...)).Draw(rt, "state"),
 			Adv:     rapid.SampledFrom(c09Advs).Draw(rt, "adv"),
 			Op:      rapid.SampledFrom([]string{"Close", "Close", "Close", "CloseNow", "CloseNow", "closeread-data", "Close-badcode", "Close-longreason"}).Draw(rt, "op"),
 			When:    rapid.SampledFrom([]string{"before", "after"}).Draw(rt, "when"),
